@@ -155,6 +155,18 @@ def run_plan(case):
     else:
         reps.append(("float32-dtype", x.astype(np.float32)))
         reps.append(("complex-dtype-with-zero-imag", x.astype(np.complex128)))
+    # right-shaped inputs that are neither C- nor Fortran-contiguous: a crop of a padded buffer, an axis-permuted view,
+    # the real part of a complex array
+    pad = np.zeros(x.shape[:-1] + (x.shape[-1] + 3,), dtype=x.dtype)
+    pad[..., : x.shape[-1]] = x
+    pad[..., x.shape[-1]:] = 7.0
+    reps.append(("strided-crop", pad[..., : x.shape[-1]]))
+    if x.ndim >= 2:
+        perm = tuple(range(1, x.ndim)) + (0,)
+        inv = tuple(np.argsort(perm))
+        reps.append(("permuted-axes-view", np.ascontiguousarray(x.transpose(perm)).transpose(inv)))
+    if real_in:
+        reps.append(("real-part-of-complex", (x + 1j * (x[::-1] if x.ndim else x)).real))
     for rname, xr in reps:
         if xr.size <= 1:
             continue
@@ -202,6 +214,21 @@ def run_plan(case):
         except ValueError:
             pass
         evals += 1
+    # the dims argument itself given as a strided int32 view (every second entry of a longer array)
+    if len(dims) >= 2:
+        dv = np.zeros(2 * len(dims), dtype=np.int32)
+        dv[::2] = dims
+        dv[1::2] = 3
+        try:
+            w3 = FFTWrapper(dv[::2], ntransform=nt, fwd=fwd, r2c=r2c, inplace=inplace, batch_first=bf)
+            y3 = w3.call(np.ascontiguousarray(inputs[-1][1]))
+            e3 = _expected(inputs[-1][1], dims, fwd, r2c, bf)
+            evals += 1
+            if y3.shape != e3.shape or np.abs(y3 - e3).max() > tol_scale * (1 + np.abs(e3).max()):
+                fails.append({"key": "strided-dims;" + ck, "msg": "a plan built from dims given as a strided int32 view computes a different transform (%s)" % full})
+            del w3
+        except (ValueError, TypeError):
+            pass
     # forward o backward == N * identity
     w2 = FFTWrapper(dims, ntransform=nt, fwd=not fwd, r2c=r2c, inplace=inplace, batch_first=bf)
     name, x = inputs[-1]
